@@ -29,7 +29,8 @@ fn decode_header(d: &[u8]) -> Option<J> {
         json!({"txn": le64(&s[104..112]), "data": s[1] != 0, "sys": s[2] != 0, "root": le64(&s[8..16]) & 0xff_ffff_ffff})
     };
     Some(json!({"primary": (god & 1) + 1, "rec": god & 2 != 0, "tpc": god & 4 != 0, "magic": d[0] == b'r', "slots": [slot(0), slot(1)],
-                "regions": [u32::from_le_bytes(d[24..28].try_into().unwrap()), u32::from_le_bytes(d[28..32].try_into().unwrap())]}))
+                "regions": [u32::from_le_bytes(d[24..28].try_into().unwrap()), u32::from_le_bytes(d[28..32].try_into().unwrap())],
+                "geom": [u32::from_le_bytes(d[16..20].try_into().unwrap()), u32::from_le_bytes(d[20..24].try_into().unwrap())]}))
 }
 
 fn mem_header(ex: &Exec) -> J {
@@ -63,7 +64,7 @@ fn main() {
         ex.step(&json!({"e": "reopen"}));
         ex.store.start_recording();
         let mut g = Gen::new(Profile::by_name(&profile), &ex.cx);
-        let mut lines: Vec<J> = vec![json!({"e": "reset", "cfg": cfg.to_json(), "hdr": mem_header(&ex), "disk": decode_header(&ex.store.bytes())})];
+        let mut lines: Vec<J> = vec![json!({"e": "reset", "cfg": cfg.to_json(), "hdr": mem_header(&ex), "disk": decode_header(&ex.store.bytes()), "len": ex.store.len()})];
         // kind of the commit the open write transaction will make
         let (mut nd, mut tp, mut sp) = (false, false, false);
         let mut consumed = 0usize;
